@@ -13,6 +13,11 @@
 (* whatever that process may keep between calls (ReturnedAgrees must       *)
 (* survive it: the shortest refutation of a cache that override fails to   *)
 (* invalidate is fresh(X), reuse, override(Y # X), reuse - four calls).    *)
+(* A call may also be INTERRUPTED (Ctrl-C, an exception after the tiles    *)
+(* were written): Fail leaves the PARTIAL directory - tiles, no index.     *)
+(* The property makes no claim where no index_rel.wtml exists; whatever    *)
+(* index exists after any later call (reuse, override, `toasty view`) must *)
+(* satisfy the sentences for the tiles then on disk.                       *)
 (***************************************************************************)
 EXTENDS Wtml
 
@@ -20,65 +25,119 @@ CONSTANTS Inputs,          \* names of (FITS collection, tiling method) configur
           Pop,             \* Pop[i]: the positions input i populates in a fresh directory
           Scheme, Ext,     \* naming scheme and format of the auto-tiler's PyramidIO
           MaxLen,          \* bound on the number of calls
+          FailBudget,      \* how many of the calls may be interrupted
+          Views,           \* TRUE: calls may also come through `toasty view` (cli.view_locally)
           ReuseRestores,   \* TRUE: reuse fills the returned description from the WTML on disk (intended);
                            \* FALSE: it returns the freshly constructed Builder (fits_tiler.py as found)
           OverrideClears,  \* TRUE: override removes the old directory first
-          Cache            \* process-lifetime memo of the description recovered on reuse:
+          Cache,           \* process-lifetime memo of the description recovered on reuse:
                            \*   "none"  - every reuse reads index_rel.wtml (fits_tiler.py as repaired)
                            \*   "sound" - reuse remembers what it read; override forgets it
                            \*   "stale" - ... but override fails to forget it (e.g. keyed by another spelling of the path)
+          Partial          \* treatment of a directory that holds tiles but no index:
+                           \*   "asfound"       - it is a directory like any other: reuse serves it as it is (default
+                           \*                     description, still no index), override removes it (fits_tiler.py)
+                           \*   "view-indexes"  - ... and `toasty view` then writes the index from what reuse returned
+                           \*   "index-guards"  - reuse/override look at the index, not the directory: a partial
+                           \*                     directory is tiled into as if it were absent
 
 Desc(i) == [id |-> i, url |-> Template(Scheme, Ext), ftype |-> FileType(Ext), levels |-> Deepest(Pop[i])]
 (* Builder(PyramidIO(out_dir, default_format=...)) before anything was tiled *)
 DefaultDesc == [id |-> "default", url |-> Template(Scheme, Ext), ftype |-> FileType(Ext), levels |-> 0]
 NoDesc      == [id |-> "none", url |-> <<>>, ftype |-> <<>>, levels |-> 0]
 FilesOf(i)  == {Path(Scheme, p, Ext) : p \in Pop[i]}
+(* what an interrupted run has written: "late" - everything but the index (interrupted between the last tile and *)
+(* the index); "base" - the base layer only (interrupted when the cascade starts)                                 *)
+FailModes == {"late", "base"}
+PartialOf(i, mode) == IF mode = "late" THEN FilesOf(i)
+                      ELSE {Path(Scheme, p, Ext) : p \in {q \in Pop[i] : q[1] = Deepest(Pop[i])}}
 
 VARIABLES present,   \* the output directory exists
-          wtml,      \* the description recorded in index_rel.wtml
+          wtml,      \* the description recorded in index_rel.wtml (NoDesc: there is no index)
           files,     \* names of the tile files in the directory
-          ret,       \* the description handed back by the last call
+          ret,       \* the description handed back by the last call (NoDesc: the call handed nothing back)
           hist,      \* the calls so far, with what each one left behind
           cache      \* what the calling process remembers about this directory (NoDesc: nothing)
 vars == <<present, wtml, files, ret, hist, cache>>
 
 Init == /\ present = FALSE /\ wtml = NoDesc /\ files = {} /\ ret = NoDesc /\ hist = <<>> /\ cache = NoDesc
 
+Indexed  == wtml # NoDesc
+NFails   == Cardinality({k \in DOMAIN hist : hist[k].via = "interrupted"})
+
 (* what a reuse hands back when it does restore the description *)
 Recovered == IF Cache # "none" /\ cache # NoDesc THEN cache ELSE wtml
 
-Kind(ov) == IF ~present THEN "fresh" ELSE IF ov THEN "override" ELSE "reuse"
+(* which branch of FitsTiler.tile the call takes *)
+Seen     == IF Partial = "index-guards" THEN Indexed ELSE present
+Kind(ov) == IF ~Seen THEN "fresh" ELSE IF ov THEN "override" ELSE "reuse"
 
-Call(i, ov) ==
-    LET kind == Kind(ov) IN
-    /\ Len(hist) < MaxLen
-    /\ kind = "reuse" => wtml.id = i      \* the property speaks of a repeated IDENTICAL call
-    /\ present' = TRUE
-    /\ wtml'  = IF kind = "reuse" THEN wtml ELSE Desc(i)
-    /\ files' = CASE kind = "fresh"    -> FilesOf(i)
+Record(i, ov, kind, via, w, r, f) ==
+    [input |-> i, override |-> ov, kind |-> kind, via |-> via, indexed |-> w # NoDesc, disk |-> w.id,
+     ret |-> r.id, levels |-> w.levels, ret_levels |-> r.levels, files |-> f]
+
+(* a call that runs to completion: through tile_fits (via = "api") or `toasty view` (via = "view", never override) *)
+Complete(i, ov, via) ==
+    LET kind == Kind(ov)
+        r    == CASE kind # "reuse" -> Desc(i)
+                  [] kind = "reuse" /\ Indexed  -> (IF ReuseRestores THEN Recovered ELSE DefaultDesc)
+                  [] kind = "reuse" /\ ~Indexed -> DefaultDesc
+        w    == CASE kind # "reuse" -> Desc(i)
+                  [] kind = "reuse" /\ ~Indexed /\ via = "view" /\ Partial = "view-indexes" -> r
+                  [] OTHER -> wtml
+        f    == CASE kind = "fresh"    -> files \cup FilesOf(i)      \* (files = {} unless a partial directory is not seen)
                   [] kind = "override" -> (IF OverrideClears THEN {} ELSE files) \cup FilesOf(i)
                   [] kind = "reuse"    -> files
-    /\ ret'   = IF kind = "reuse" THEN (IF ReuseRestores THEN Recovered ELSE DefaultDesc) ELSE Desc(i)
-    /\ cache' = CASE kind = "reuse"    -> (IF Cache = "none" \/ ~ReuseRestores THEN NoDesc ELSE Recovered)
+    IN
+    /\ Len(hist) < MaxLen
+    /\ (kind = "reuse" /\ Indexed) => wtml.id = i      \* the property speaks of a repeated IDENTICAL call
+    /\ via = "view" => (present /\ ~ov)
+    /\ present' = TRUE
+    /\ wtml'  = w
+    /\ files' = f
+    /\ ret'   = r
+    /\ cache' = CASE kind = "reuse" /\ Indexed -> (IF Cache = "none" \/ ~ReuseRestores THEN NoDesc ELSE Recovered)
                   [] kind = "override" -> (IF Cache = "stale" THEN cache ELSE NoDesc)
-                  [] kind = "fresh"    -> cache
-    /\ hist'  = Append(hist, [input |-> i, override |-> ov, kind |-> kind, disk |-> wtml'.id,
-                              ret |-> ret'.id, levels |-> wtml'.levels, ret_levels |-> ret'.levels,
-                              files |-> files'])
+                  [] OTHER -> cache
+    /\ hist'  = Append(hist, Record(i, ov, kind, via, w, r, f))
 
-Next == \E i \in Inputs : \E ov \in BOOLEAN : Call(i, ov)
+Call(i, ov) == Complete(i, ov, "api")
+View(i)     == Views /\ Complete(i, FALSE, "view")
+
+(* a call that is interrupted after writing tiles and before writing the index *)
+Fail(i, ov, mode) ==
+    LET kind == Kind(ov)
+        f    == (IF kind = "override" /\ OverrideClears THEN {} ELSE files) \cup PartialOf(i, mode)
+    IN
+    /\ Len(hist) < MaxLen
+    /\ NFails < FailBudget
+    /\ kind # "reuse"                     \* (a reuse returns at once: there is nothing to interrupt)
+    /\ ~present => ~ov                    \* (override is immaterial for an absent directory)
+    /\ present' = TRUE
+    /\ wtml'  = NoDesc                    \* (absent, removed by the override, or there was none)
+    /\ files' = f
+    /\ ret'   = NoDesc
+    /\ cache' = IF kind = "override" /\ Cache # "stale" THEN NoDesc ELSE cache
+    /\ hist'  = Append(hist, Record(i, ov, IF mode = "late" THEN "fail-late" ELSE "fail-base", "interrupted", NoDesc, NoDesc, f))
+
+Next == \E i \in Inputs :
+           \/ \E ov \in BOOLEAN : Call(i, ov)
+           \/ View(i)
+           \/ \E ov \in BOOLEAN : \E mode \in FailModes : Fail(i, ov, mode)
 Spec == Init /\ [][Next]_vars
 
 PopOnDisk == {Unpath(Scheme, f) : f \in files}
 
 (* the description returned by every call is the one recorded in the WTML on disk after that call *)
-ReturnedAgrees == hist # <<>> => ret = wtml
-(* expanding the recorded template over the populated positions gives exactly the files on disk *)
-TemplateAddressesFiles == present => files = {Expand(wtml.url, p) : p \in PopOnDisk}
-LevelsIsDeepest == present => wtml.levels = Deepest(PopOnDisk)
-FileTypeIsExt == present => \A f \in files : DotExt(f) = wtml.ftype
+ReturnedAgrees == (hist # <<>> /\ ret # NoDesc /\ Indexed) => ret = wtml
+(* a call that completes a tiling leaves an index *)
+CompletedIsIndexed == (hist # <<>> /\ hist[Len(hist)].kind \in {"fresh", "override"}) => Indexed
+(* whatever index exists: expanding the recorded template over the populated positions gives exactly the files on disk *)
+TemplateAddressesFiles == Indexed => files = {Expand(wtml.url, p) : p \in PopOnDisk}
+LevelsIsDeepest == Indexed => wtml.levels = Deepest(PopOnDisk)
+FileTypeIsExt == Indexed => \A f \in files : DotExt(f) = wtml.ftype
 (* the same sentences, through the observation judge of Part 2 *)
-JudgeAgrees == present =>
+JudgeAgrees == Indexed =>
     LET j == Judge([url |-> wtml.url, ftype |-> wtml.ftype, levels |-> wtml.levels, files |-> files, writes |-> {}])
     IN j.stray = {} /\ j.badext = {} /\ j.ftype_t /\ j.levels_ok
 =============================================================================
